@@ -346,8 +346,48 @@ func AlphaRename(p *core.Program) *core.Program {
 		for changed := true; changed; {
 			t.Body, changed = dropUnusedLets(t.Body, t.Body)
 		}
+		// likewise a param whose only "uses" were uses of a local of the same name
+		if !hasAllDataCall(t.Body) {
+			kept := []core.Param{}
+			for _, pa := range t.Params {
+				if mentions(t.Body, pa.Name) {
+					kept = append(kept, pa)
+				}
+			}
+			t.Params = kept
+		}
 	}
 	return q
+}
+
+func hasAllDataCall(v interface{}) bool {
+	found := false
+	var walk func(interface{})
+	walk = func(v interface{}) {
+		if found {
+			return
+		}
+		switch x := v.(type) {
+		case map[string]interface{}:
+			if x["k"] == "call" && x["data"] == "all" {
+				found = true
+				return
+			}
+			for _, c := range x {
+				walk(c)
+			}
+		case []core.Cmd:
+			for _, c := range x {
+				walk(c)
+			}
+		case []interface{}:
+			for _, c := range x {
+				walk(c)
+			}
+		}
+	}
+	walk(v)
+	return found
 }
 
 func dropUnusedLets(cmds []core.Cmd, whole []core.Cmd) ([]core.Cmd, bool) {
@@ -475,7 +515,7 @@ func ifemptyBlock(cmds []core.Cmd, n *int) []core.Cmd {
 			em := c["empty"].(core.Cmd)
 			e := c["e"].(core.E)
 			isRange := e["k"] == "fn" && e["name"] == "range"
-			if em["has"].(bool) && !isRange && (mentions(em["body"], c["var"].(string)) || hasLoopHelper(em["body"])) {
+			if em["has"].(bool) && !isRange {
 				*n++
 				tmp := fmt.Sprintf("%s_e%d", c["var"].(string), *n)
 				loop := core.CForeach(fmt.Sprint(c["kw"]), c["var"].(string), core.EVar(tmp), asCmds(c["body"]), core.Opt(false, nil))
@@ -489,8 +529,7 @@ func ifemptyBlock(cmds []core.Cmd, n *int) []core.Cmd {
 	return out
 }
 
-// MoveIfEmptyOut rewrites {foreach $v in L}B{ifempty}E{/foreach}, E mentioning
-// $v (an outer binding of that name) or a loop helper, to
+// MoveIfEmptyOut rewrites {foreach $v in L}B{ifempty}E{/foreach} to
 // {let $t: L /}{if length($t) > 0}{foreach $v in $t}B{/foreach}{else}E{/if}.
 func MoveIfEmptyOut(p *core.Program) (*core.Program, bool) {
 	q := CloneProgram(p)
